@@ -401,10 +401,13 @@ PROPS = {
     },
     "C19": {
         "theorems": ["C19_retry_budget_exact", "C19_progress_resets", "C19_quiet_before_delay", "C19_time_additive", "C19_timed_exact"],
-        "drivers": ["drv_txn.test"],
-        "units": [Unit("drv_txn", unit_txn)],
-        "rule": "as C18: virtual timestamps of retry callbacks and completion compared exactly with the model",
-        "assumptions": ["Go timers fire at their deadline on the synctest fake clock"],
+        "drivers": ["drv_txn.test", "drv_client.test"],
+        "units": [Unit("drv_txn", unit_txn), Unit("drv_client", unit_client)],
+        "mismatch_kinds": [r"txn", r"callback", r"schedule", r"RET", r"TIME", r"SN:(Pubrel|Publish|Register|Subscribe|Unsubscribe|Pingreq)", r"MISSING-", r"PANIC", r"."],
+        "rule": "as C18: virtual timestamps of retry callbacks and completion compared exactly with the model; and the client "
+                "library's use of the transactions (what counts as progress): " + CL_RULE + "; a call overdue beyond its budget "
+                "(monitor clause (28,1)) is reported as a C19 failure too",
+        "assumptions": ["Go timers fire at their deadline on the synctest fake clock"] + CL_ASSUME,
     },
     "C27": {
         "theorems": ["C27_match_is_mqtt_matching", "C27_only_matching_callbacks", "C27_unsubscribed_not_invoked", "C27_step_only_matching_callbacks", "C27_step_delivered_message_invokes_a_callback"],
@@ -438,11 +441,14 @@ PROPS = {
     },
     "C32": {
         "theorems": ["C32_routing_consistent"],
-        "drivers": ["drv_topics", "drv_codec", "drv_cli", "cmd-bisquitt", "cmd-bisquitt-pub", "cmd-bisquitt-sub"],
-        "units": [Unit("drv_topics", unit_topics), Unit("drv_codec", unit_codec), Unit("drv_cli", unit_cli)],
-        "mismatch_kinds": [r"GetTopic", r"ShortTopic", r"chk_short", r"gateway topic", r"predefined id", r"short topic"],
-        "rule": "predefined lookups on overlapping configurations, all 65 536 short topic IDs, and the real bisquitt-pub/-sub "
-                "against the real gateway's resolution of the same configuration (drv_cli cross-check)",
+        "drivers": ["drv_topics", "drv_codec", "drv_cli", "cmd-bisquitt", "cmd-bisquitt-pub", "cmd-bisquitt-sub", "drv_gw.test"],
+        "units": [Unit("drv_topics", unit_topics), Unit("drv_codec", unit_codec), Unit("drv_cli", unit_cli), Unit("drv_gw", unit_gw)],
+        "mismatch_kinds": [r"GetTopic", r"ShortTopic", r"chk_short", r"gateway topic", r"predefined id", r"short topic",
+                           r"MQ:(PUBLISH|SUBSCRIBE|UNSUBSCRIBE)", r"SN:Publish"],
+        "rule": "predefined lookups on overlapping configurations, all 65 536 short topic IDs, the real bisquitt-pub/-sub "
+                "against the real gateway's resolution of the same configuration (drv_cli cross-check), and the gateway session "
+                "histories (client packets and broker messages with predefined and short topic IDs at any point of a session: the "
+                "gateway must resolve them under the client ID of the CONNECT throughout)",
         "assumptions": ["client and gateway are given the same configuration and client ID"],
     },
     "C14": {
@@ -649,10 +655,11 @@ def run_sharded_multi(binary, hist, trace, k, shards=14):
 
 PROPS["C15"] = {
     "theorems": ["C15_non_interference"],
-    "drivers": ["drv_gw.test"],
-    "units": [Unit("drv_gw_multi", unit_gw_multi)],
-    "mismatch_kinds": [r"."],
-    "rule": "groups of three model-guided session histories (profiles as in the single-session runs) sharing ONE configuration "
+    "drivers": ["drv_gw.test", "drv_cli", "cmd-bisquitt", "cmd-bisquitt-pub", "cmd-bisquitt-sub"],
+    "units": [Unit("drv_gw_multi", unit_gw_multi), Unit("drv_cli", unit_cli)],
+    "mismatch_kinds": [r"^(?!gateway topic|predefined id|short topic|plain topic|configuration|empty user|tool)"],
+    "rule": "the real gateway binary (its accept loop: one session per peer address) with two peers on loopback UDP - the "
+            "second peer's session must survive the end of the first one's (drv_cli, CLI15); and groups of three model-guided session histories (profiles as in the single-session runs) sharing ONE configuration "
             "and predefined-topics map are run as three concurrent sessions created from one shared gateway handler "
             "configuration (gateway.NewVerifShared, as ListenAndServe does per peer address) in one synctest bubble on a common "
             "clock, events interleaved by virtual time; each session's trace must equal the single-session model run of its own "
